@@ -342,6 +342,10 @@ def check_env_transparency(ck):
             "terminal": (lambda e, s, k: e.terminal(s, key=k), [st, jr.key(0)], ["s", "key"]),
             "truncate": (lambda e, s: e.truncate(s), [st], ["s"]),
         }
+        if ename in ("CartPole", "Pendulum", "TimeLimit(CartPole)", "MountainCar(goal_velocity=0.02)"):
+            # the composed Gym-style entry points (auto-reset inside): a batch of environments steps / resets lane by lane
+            comps["step"] = (lambda e, s, a, k: e.step(s, a, key=k), [st, act, jr.key(0)], ["s", "a", "key"])
+            comps["reset"] = (lambda e, k: e.reset(key=k), [jr.key(0)], ["key"])
         for cname, (f, ex, argn) in comps.items():
             with stubs.ode_stub(), stubs.prng_stubs():
                 try:
